@@ -364,6 +364,14 @@ func TestReplayFile(t *testing.T) {
 		if msg != "" {
 			t.Fatalf("%s: %s", c.Target, msg)
 		}
+	case doc.Check == "field-spelling":
+		var c spellCase
+		if err := json.Unmarshal(doc.Case, &c); err != nil {
+			t.Fatal(err)
+		}
+		if msg := checkSpelling(c); msg != "" {
+			t.Fatalf("field %q sent as %q: %s", c.Field, c.Spelling, msg)
+		}
 	case doc.Check == "limits-accept":
 		TestLimitsAcceptWhatIsEmitted(t)
 	default:
